@@ -190,13 +190,15 @@ def c19(tier, seed):
                 R.expect("bounded:grouped", f"List->grouped({lit(recs)}, key = fn(r) r[0])", lambda r, egk=egk: same(r, egk), "adjacent records with equal keys grouped")
         for cs in (1, 2, 3):
             R.expect("bounded:chunks", f"chunks({la}, {cs})",
-                     lambda r: same(r, [a[i:i + cs] for i in range(0, len(a), cs)] or [[]]), "chunks of the stated size")
+                     lambda r: same(r, [a[i:i + cs] for i in range(0, len(a), cs)]), "consecutive chunks of the stated size (the last one may be shorter, none is empty)")
         R.expect("bounded:zip", f"zip({la}, List->reverse({la}))", lambda r: same(r, [[x, y] for x, y in zip(a, a[::-1])]), "pairs")
     for a in lists_upto([[1, 2], 3, [], "a", [4, [5]]], 3, cap, rnd):
         flat = []
         for x in a:
             flat.extend(x) if isinstance(x, list) else flat.append(x)
         R.expect("bounded:flatten", f"List->flatten({lit(a)})", lambda r: same(r, flat), "one level flattened")
+    R.expect("bounded:sum", "sum([])", lambda r: r == 0 and type(r) is int, "empty sum 0")
+    R.expect("bounded:prod", "List->prod([])", lambda r: r == 1 and type(r) is int, "empty product 1")
     # ---- numeric folds and order statistics, invariant under permutation
     for a in lists_upto(NUMPOOL, maxlen, cap, rnd):
         if not a:
@@ -219,9 +221,22 @@ def c19(tier, seed):
             R.expect("bounded:median_high-permutation-invariant", f"Stat->median_high({lp})", lambda r: r == exp_high, f"high median {exp_high}")
             R.expect("bounded:median-permutation-invariant", f"Stat->median({lp})",
                      lambda r: r == (srt[n // 2] if n % 2 else (srt[n // 2 - 1] + srt[n // 2]) / 2.0), "median")
-            R.expect("bounded:mean-permutation-invariant", f"Stat->mean({lp})", lambda r: abs(r - sum(a) / n) < 1e-9, "mean")
+            # the same value for every arrangement (exactly, not up to a tolerance): the sum of the values in ascending order over n
+            R.expect("bounded:mean-permutation-invariant", f"Stat->mean({lp})", lambda r: r == sum(srt) / n and type(r) is float, f"mean {sum(srt) / n!r} for every arrangement")
             R.expect("bounded:min-permutation-invariant", f"min({lp})", lambda r: r == min(a), "minimum")
             R.expect("bounded:max-permutation-invariant", f"max({lp})", lambda r: r == max(a), "maximum")
+    # ---- values whose float sums depend on the order of addition, and ints whose running mean is not representable
+    for a in ([0.1, 0.2, 0.3], [0.1, 0.7, 0.2, 0.3], [-20, -8, -6, 14], [-19, 4, 7], [1, 0.1, -1, 0.3], [3, 0.1, 0.2], [7, 7, 7, 0.1, 0.2, 0.3][:5]):
+        srt = sorted(a)
+        n = len(a)
+        outs = set()
+        for pm in itertools.permutations(a):
+            lp = lit(list(pm))
+            r = R.run(f"Stat->mean({lp})")
+            outs.add(str(r))
+            R.expect("bounded:mean-permutation-invariant", f"Stat->mean({lp})", lambda r: r == sum(srt) / n, f"mean {sum(srt) / n!r} for every arrangement")
+            R.expect("bounded:median-permutation-invariant", f"Stat->median({lp})",
+                     lambda r: r == (srt[n // 2] if n % 2 else (srt[n // 2 - 1] + srt[n // 2]) / 2.0), "median")
     # ---- interval / range
     for a in range(-3, 6):
         R.expect("bounded:interval", f"interval({a})", lambda r: same(r, list(range(1, a + 1))), "1..a")
@@ -237,11 +252,11 @@ def c19(tier, seed):
             R.expect("bounded:abs", f"Math->abs({v})", lambda r: r == abs(v) and type(r) is int, "exact |n|")
             R.expect("bounded:sign", f"Math->sign({v})", lambda r: r == (v > 0) - (v < 0), "sign")
         for b in big:
-            if a == 0 and b == 0:
-                continue
-            R.expect("bounded:gcd", f"Math->gcd({a}, {b})", lambda r: r == math.gcd(a, b) and type(r) is int, "exact gcd")
-            if a and b:
-                R.expect("bounded:lcm", f"Math->lcm({a}, {b})", lambda r: r == a * b // math.gcd(a, b) and type(r) is int, "exact lcm")
+            # the whole domain: both signs and zero (gcd and lcm are the non-negative generators: gcd(0, 0) = 0, lcm(0, n) = 0)
+            for sa, sb in ((1, 1), (-1, 1), (1, -1), (-1, -1)):
+                x, y = a * sa, b * sb
+                R.expect("bounded:gcd", f"Math->gcd({x}, {y})", lambda r: r == math.gcd(x, y) and type(r) is int, f"exact gcd {math.gcd(x, y)}")
+                R.expect("bounded:lcm", f"Math->lcm({x}, {y})", lambda r: r == math.lcm(x, y) and type(r) is int, f"exact lcm {math.lcm(x, y)}")
             if b <= 40:
                 R.expect("bounded:pow", f"Math->pow({a}, {b})", lambda r: r == a ** b and type(r) is int, "exact power")
     words = [0, 1, 2, 0x7FFFFFFF, 0x80000000, 0xFFFFFFFF, 0x12345678, 0xAAAAAAAA, 0x55555555, 0xFFFF0000]
